@@ -512,6 +512,11 @@ def check_parallel_regions(model, rep):
     # the post-region check reads the missing marker
     after = [s for s in f.body if s.lineno > loop.end_lineno]
     txt = ' ; '.join(src(s) for s in after)
+    # ... directly or in a private helper of the module that the statements after the region call with the element indices
+    for c_ in [c for s_ in after for c in ast.walk(s_) if isinstance(c, ast.Call) and isinstance(c.func, ast.Name)]:
+        h_ = model.functions.get(f'topology:{c_.func.id}')
+        if h_ is not None and any(src(a_) == 'ielems' for a_ in c_.args):
+            txt += ' ; ' + src(h_.node)
     ok = '-1 not in ielems' in txt and 'raise LocateError' in txt and 'skip_missing' in txt
     rep.ob('R16.5', f.key, f.where(), ok, 'after the region a missing marker either raises LocateError or is filtered (skip_missing)' if ok else
            'the post-region test for missing points changed', statement='missing-raises')
